@@ -415,6 +415,27 @@ struct CaseOut {
 
 static NEXT_DIR: AtomicU64 = AtomicU64::new(0);
 
+/// Same as `drive::run_cli` (this binary as `as-truth-core <args>`, same environment), but spawns a private
+/// snapshot of the executable taken once per process from /proc/self/exe, so that a concurrent `cargo build`
+/// replacing the binary on disk cannot break the remaining cases of a long run.
+fn run_cli_snapshot(args: &[String]) -> crate::drive::CliOut {
+    static EXE: std::sync::OnceLock<Option<PathBuf>> = std::sync::OnceLock::new();
+    let exe = EXE.get_or_init(|| {
+        let dst = scratch_dir().join("truth-verif-snapshot");
+        let ok = std::fs::copy("/proc/self/exe", &dst).is_ok() && {
+            use std::os::unix::fs::PermissionsExt;
+            std::fs::set_permissions(&dst, std::fs::Permissions::from_mode(0o755)).is_ok()
+        };
+        if ok { Some(dst) } else { None }
+    });
+    let Some(exe) = exe else { return run_cli(args, &[]); };
+    let mut cmd = std::process::Command::new(exe);
+    cmd.arg("as-truth-core").args(args);
+    cmd.env_remove("TRUTH_MAP_PATH").env_remove("_TRUTH_DEBUG__TEST").env("RUST_BACKTRACE", "0");
+    let out = cmd.output().expect("spawn cli snapshot");
+    crate::drive::CliOut { status: out.status.code().unwrap_or(-1), stdout: out.stdout, stderr: out.stderr }
+}
+
 struct Work { dir: PathBuf, calls: u64, keep: bool }
 impl Work {
     fn new() -> Work {
@@ -435,7 +456,7 @@ impl Work {
         let a: Vec<String> = args.iter().map(|s| s.to_string()).collect();
         // (the harness binary can be replaced by a concurrent build; a failed spawn is a machinery error,
         //  not a property violation)
-        match crate::common::catch(|| run_cli(&a, &[])) {
+        match crate::common::catch(|| run_cli_snapshot(&a)) {
             Ok(o) => o,
             Err(p) => crate::drive::CliOut { status: -999, stdout: vec![], stderr: format!("machinery: {}", p.text).into_bytes() },
         }
